@@ -335,7 +335,7 @@ def check(chk: Check) -> None:
                    and any(s in nts for s in t.prod.rhs) and lm.token_texts.get(t.prod.rhs[-1]) == {')'} and len(t.prod.rhs) == 4]
     for t in plain_calls:
         fd = dict(t.result[2])
-        good = fd.get(nf, ())[:2] == ('tok', '1') and fd.get(af, ())[:2] == ('symlist', '3')
+        good = fd.get(nf, ())[:2] == ('tok', '1') and (A.as_symlist(fd.get(af)) or ())[:2] == ('symlist', '3')
         chk.require(good, R6, 'template ' + t.key, '%s:%d' % (g.module.rel, t.prod.line),
                     'call(name = NAME, args = the argument list as written): f(r, a) and r.f(a) coincide' if good else 'plain call builds %s' % t.show())
 
